@@ -1,5 +1,13 @@
 import RumaModel.Proto
 import RumaModel.Model.Canonical
+import RumaModel.Spec.CanonicalJson
+/-
+  Driver for C01. The answer is computed by the model from the token-encoded value tree.
+  As a cross-check of the harness' generator ("this text denotes this tree") the driver also reads
+  every JSON text of the request with its own small JSON text reader (executable, unproven, not on
+  the path of any theorem): text 1 must denote exactly the tree, and every further text must lead
+  the model to the same answer. A failure of this cross-check is a harness bug: `bad-op`.
+-/
 namespace Ruma.Driver.C01
 open Ruma Ruma.Proto Ruma.Canonical
 
@@ -7,23 +15,194 @@ def showRes : Except Err (List Nat) → String
   | .ok b => "ok " ++ strTok b
   | .error _ => "err"
 
+/-! ### JSON text reader (RFC 8259), objects in text order, numbers classified like serde_json -/
+
+def isWs (b : Nat) : Bool := b = 32 || b = 9 || b = 10 || b = 13
+def isDig (b : Nat) : Bool := decide (48 ≤ b) && decide (b ≤ 57)
+
+partial def skipWs : List Nat → List Nat
+  | b :: t => if isWs b then skipWs t else b :: t
+  | [] => []
+
+def hexAny (b : Nat) : Option Nat :=
+  if 48 ≤ b ∧ b ≤ 57 then some (b - 48)
+  else if 97 ≤ b ∧ b ≤ 102 then some (b - 87)
+  else if 65 ≤ b ∧ b ≤ 70 then some (b - 55)
+  else none
+
+def hex4 : List Nat → Option (Nat × List Nat)
+  | a :: b :: c :: d :: t =>
+    match hexAny a, hexAny b, hexAny c, hexAny d with
+    | some a, some b, some c, some d => some (((a * 16 + b) * 16 + c) * 16 + d, t)
+    | _, _, _, _ => none
+  | _ => none
+
+partial def readStrBody (inp : List Nat) (acc : List Nat) : Option (Str × List Nat) :=
+  match inp with
+  | [] => none
+  | b :: t =>
+    if b = 34 then some (acc.reverse, t)
+    else if b = 92 then
+      match t with
+      | [] => none
+      | e :: t' =>
+        let simple (c : Nat) := readStrBody t' (c :: acc)
+        if e = 34 then simple 34 else if e = 92 then simple 92 else if e = 47 then simple 47
+        else if e = 98 then simple 8 else if e = 102 then simple 12 else if e = 110 then simple 10
+        else if e = 114 then simple 13 else if e = 116 then simple 9
+        else if e = 117 then
+          match hex4 t' with
+          | none => none
+          | some (u, t'') =>
+            if 0xD800 ≤ u ∧ u < 0xDC00 then
+              match t'' with
+              | 92 :: 117 :: t3 =>
+                match hex4 t3 with
+                | some (lo, t4) =>
+                  if 0xDC00 ≤ lo ∧ lo < 0xE000 then
+                    let cp := 0x10000 + (u - 0xD800) * 1024 + (lo - 0xDC00)
+                    readStrBody t4 ((Spec.CanonicalJson.utf8EncodeChar cp).reverse ++ acc)
+                  else none
+                | none => none
+              | _ => none
+            else if 0xDC00 ≤ u ∧ u < 0xE000 then none
+            else readStrBody t'' ((Spec.CanonicalJson.utf8EncodeChar u).reverse ++ acc)
+        else none
+    else if b < 32 then none
+    else readStrBody t (b :: acc)
+
+partial def takeDigits : List Nat → List Nat → List Nat × List Nat
+  | b :: t, acc => if isDig b then takeDigits t (b :: acc) else (acc.reverse, b :: t)
+  | [], acc => (acc.reverse, [])
+
+def digitsVal (ds : List Nat) : Nat := ds.foldl (fun a d => 10 * a + (d - 48)) 0
+
+/-- A number token; `int` iff it is a plain integer literal, not `-0`, that fits i64 or u64. -/
+def readNum (inp : List Nat) : Option (JVal × List Nat) :=
+  let (neg, r0) := match inp with
+    | 45 :: t => (true, t)
+    | _ => (false, inp)
+  let (ds, r1) := takeDigits r0 []
+  if ds.isEmpty ∨ (ds.length > 1 ∧ ds.head? = some 48) then none
+  else
+    let (hasFrac, r2) := match r1 with
+      | 46 :: t =>
+        let (fs, r) := takeDigits t []
+        if fs.isEmpty then (none, r) else (some true, r)
+      | _ => (some false, r1)
+    match hasFrac with
+    | none => none
+    | some hasFrac =>
+      let (hasExp, r3) := match r2 with
+        | b :: t =>
+          if b = 101 ∨ b = 69 then
+            let t' := match t with
+              | 43 :: t' => t'
+              | 45 :: t' => t'
+              | _ => t
+            let (es, r) := takeDigits t' []
+            if es.isEmpty then (none, r) else (some true, r)
+          else (some false, r2)
+        | [] => (some false, r2)
+      match hasExp with
+      | none => none
+      | some hasExp =>
+        let n := digitsVal ds
+        if hasFrac ∨ hasExp then some (.float, r3)
+        else if neg then
+          if n = 0 then some (.float, r3)
+          else if n ≤ 9223372036854775808 then some (.int (-(Int.ofNat n)), r3) else some (.float, r3)
+        else if n ≤ 18446744073709551615 then some (.int (Int.ofNat n), r3) else some (.float, r3)
+
+def stripLit (p : List Nat) (inp : List Nat) : Option (List Nat) :=
+  if inp.take p.length = p then some (inp.drop p.length) else none
+
+mutual
+partial def readVal (inp : List Nat) : Option (JVal × List Nat) :=
+  match skipWs inp with
+  | [] => none
+  | b :: t =>
+    if b = 110 then (stripLit [117, 108, 108] t).map (fun r => (.null, r))
+    else if b = 116 then (stripLit [114, 117, 101] t).map (fun r => (.bool true, r))
+    else if b = 102 then (stripLit [97, 108, 115, 101] t).map (fun r => (.bool false, r))
+    else if b = 34 then (readStrBody t []).map (fun p => (.str p.1, p.2))
+    else if b = 91 then
+      match skipWs t with
+      | 93 :: r => some (.arr [], r)
+      | r => readElems r []
+    else if b = 123 then
+      match skipWs t with
+      | 125 :: r => some (.obj [], r)
+      | r => readMembers r []
+    else readNum (b :: t)
+partial def readElems (inp : List Nat) (acc : List JVal) : Option (JVal × List Nat) :=
+  match readVal inp with
+  | none => none
+  | some (v, r) =>
+    match skipWs r with
+    | 44 :: r' => readElems r' (v :: acc)
+    | 93 :: r' => some (.arr (v :: acc).reverse, r')
+    | _ => none
+partial def readMembers (inp : List Nat) (acc : List (Str × JVal)) : Option (JVal × List Nat) :=
+  match skipWs inp with
+  | 34 :: t =>
+    match readStrBody t [] with
+    | none => none
+    | some (k, r0) =>
+      match skipWs r0 with
+      | 58 :: r1 =>
+        match readVal r1 with
+        | none => none
+        | some (v, r) =>
+          match skipWs r with
+          | 44 :: r' => readMembers r' ((k, v) :: acc)
+          | 125 :: r' => some (.obj ((k, v) :: acc).reverse, r')
+          | _ => none
+      | _ => none
+  | _ => none
+end
+
+def readText (t : Str) : Option JVal :=
+  match readVal t with
+  | some (v, r) => if (skipWs r).isEmpty then some v else none
+  | none => none
+
+def modelAnswer (v : JVal) : String := showRes ((normalize (serdeValue v)).map encode)
+
 def handle (toks : List String) : String :=
   match toks with
   | "c01.canon" :: k :: rest =>
     match k.toNat? with
     | some k =>
-      let texts := rest.take k
-      if k = 0 ∨ texts.length ≠ k ∨ texts.any (fun t => (parseStrTok t).isNone) then "bad-op"
+      let texts := (rest.take k).filterMap parseStrTok
+      if k = 0 ∨ texts.length ≠ k then "bad-op"
       else
         match parseOne (rest.drop k) with
-        | some v => showRes ((normalize (serdeValue v)).map encode)
+        | some v =>
+          let ans := modelAnswer v
+          -- cross-check of the generator: text 1 is exactly the tree; the others give the same answer
+          let ok1 := match texts.head?.bind readText with
+            | some v1 => v1 == v
+            | none => false
+          let okRest := (texts.drop 1).all (fun t =>
+            match readText t with
+            | some vi => modelAnswer vi == ans
+            | none => false)
+          if ok1 && okRest then ans else "bad-op"
         | none => "bad-op"
     | none => "bad-op"
   | "c01.sig" :: text :: rest =>
     match parseStrTok text, parseOne rest with
-    | some _, some (.obj kvs) =>
+    | some t, some (.obj kvs) =>
       match serdeValue (.obj kvs) with
-      | .obj m => showRes ((normalizeMap m).map sigCanonicalJson)
+      | .obj m =>
+        let ans := showRes ((normalizeMap m).map sigCanonicalJson)
+        let ok := match readText t with
+          | some (.obj kvs') => (match serdeValue (.obj kvs') with
+              | .obj m' => showRes ((normalizeMap m').map sigCanonicalJson) == ans
+              | _ => false)
+          | _ => false
+        if ok then ans else "bad-op"
       | _ => "bad-op"
     | _, _ => "bad-op"
   | _ => "bad-op"
